@@ -183,6 +183,7 @@ def _worker(args):
         # 4. full exploration
         sys.setprofile(prof)
         first = {"n": 0}
+        sx.SECOND.update(budget=int(os.environ.get("VERIF_SECOND", "3")), seen=set())
         try:
             paths, st = sx.explore(case.fn, max_paths=case.max_paths, timeout_ms=tmo, deadline=t0 + budget)
         finally:
@@ -213,6 +214,16 @@ def _worker(args):
                     o["reached"] += 1
                 elif rec["reach"] != "unsat":
                     o["reach_unknown"] = o.get("reach_unknown", 0) + 1
+                if rec.get("second"):
+                    so = res.setdefault("second", {"checked": 0, "unsat": 0, "unknown": 0, "sat": 0})
+                    so["checked"] += 1
+                    so[rec["second"] if rec["second"] in ("unsat", "sat") else "unknown"] += 1
+                    if rec["second"] == "sat":
+                        # the two solvers disagree: the obligation is not counted as discharged
+                        o["unsat"] -= 1
+                        o["unknown"] += 1
+                        o["second_opinion_disagrees"] = o.get("second_opinion_disagrees", 0) + 1
+                        res["inconclusive"].append(name + " (second solver: sat)")
                 if rec["result"] == "unknown":
                     res["inconclusive"].append(name)
                 if len(res["samples"]) < 3 and rec["result"] == "unsat":
@@ -496,7 +507,8 @@ def main(argv=None):
             "outside_bounds": getattr(mod, "OUTSIDE", []),
             "stubs": getattr(mod, "STUBS", []),
             "solver_time_s": round(sum(r["solver_s"] for r in results), 3),
-            "solvers": ["z3 " + _z3v()],
+            "solvers": ["z3 " + _z3v(), "second opinion: /usr/bin/z3 4.8.12 on a sample of discharged obligations"],
+            "second_opinion": {k: sum(r.get("second", {}).get(k, 0) for r in results) for k in ("checked", "unsat", "unknown", "sat")},
             "known_findings": list(known.values()),
             "violations": [{"case": c, **v} for c, v in viol],
             "harness_errors": [{"case": r["case"], "error": r["error"]} for r in errors],
